@@ -18,6 +18,24 @@ needs = {
  "C18h-1": "two-step sequence + option: an existing CTE_RED1/CTE_RED2 metadata item is no longer refreshed by a --red1/--red2 override; the saved components file keeps the stale factor, which overrides the saved factor file on re-read",
  "C18h-2": "generation count: a user RED factor that replaces a factor defined in the file appends ' (Factor de usuario)' to its comment at every reading; the comment grows with each save / re-read",
  "C18h-3": "hash order across incarnations: single-EPB-service shortcut picks from the unfiltered HashSet; one EPB service plus NEPB/COGEN use: the AUX service flips between CAL and NEPB between the original reading and the read-back",
+ "C05i-1": "unusual ids: shared parse_id() reads the id as f32 and casts; ids above 2^24 (16777217) collapse onto their neighbour and two systems merge, one's surplus covering the other's use",
+ "C05i-2": "specific comment tag + shape: is_aux() also true for an ELECTRICIDAD CONSUMO tagged CTEEPBD_AUX / CTEEPBD_EXCLUYE_AUX_ACS; the AUX reassignment's retain() then deletes that declared line in a system with >=2 services",
+ "C05i-3": "disk history / specific comment: normalize() first removes EAMBIENTE/TERMOSOLAR productions carrying the tool's balancing comment and recomputes them; a declared surplus with that comment is lost",
+ "C06i-1": "input shape: veclistsum rewritten as pairwise summation drops partial sums when the even part is not a power of two; a multi-service system with 6, 7 or 10-15 AUX lines loses whole lines",
+ "C06i-2": "input shape: normalize() drops all-zero components first; a system whose CONSUMO for one service is zero in every step (free cooling) while its SALIDA is not looks single-service and all AUX goes to the other service",
+ "C06i-3": "two-step sequence: lines carrying an automatic comment are dropped on reading; the reassigned AUX lines of a file saved with --oc are the only record of the declared auxiliaries",
+ "C10i-1": "line order / split + threshold: the DHW indicator's abs() < 0.01 tests became < f32::EPSILON; a 1e-5 residue that depends on the order or the split of >=2 AUX lines flips 0.967 into an error",
+ "C10i-2": "hash order: the DHW demand covered by nearby carriers is capped inside a hash-map loop; TERMOSOLAR 70 + RED1 50 against a demand of 100 gives 0.700 or 0.500 depending on the run",
+ "C10i-3": "line split + magnitude: each PRODUCCION line is clipped at 1e-3 kWh before accumulation; production of about a Wh per step spread over two lines vanishes - needs values below the 0.01 kWh grid of the generator (see 9.3)",
+ "C16i-1": "specific byte: Display for EpbdError cuts the echoed detail with &detail[..200]; a rejected line longer than 200 bytes with a multi-byte character across byte 200 panics when the error is printed",
+ "C16i-2": "option value: StrictUtf8 removed, -c/-f read with value_of_os; a numeric option value that is not valid UTF-8 (-a 100\\xa0) panics inside clap",
+ "C16i-3": "I/O fault at a particular point: JSON streamed through a BufWriter that is never flushed; a write error that hits only the last block (< 8 KiB) is discarded in drop: truncated document, exit 0",
+ "C17i-1": "extreme magnitude: JSON rounding through an i64 count of thousandths saturates above 9.22e15; a weighted figure of 2e16 is stated as 9.223372e15 and reads back as that",
+ "C17i-2": "specific text: escape_xml no longer escapes '>'; a comment containing `]]>` makes the XML ill-formed",
+ "C17i-3": "special value: value_or_dash uses is_normal(); a declared demand whose total is exactly 0.0 is printed as '-' in the text while the JSON says 0.0",
+ "C18i-1": "specific text: new line-continuation feature removes backslash + newline before splitting lines; a comment or metadata value ending in a backslash swallows the next line of a saved file on re-read",
+ "C18i-2": "input shape: #META lines de-duplicated with dedup_by_key on write-out; adjacent metadata lines with the same key (a note that spans lines) lose all but the first",
+ "C18i-3": "specific text + generation count: shared split_comment tolerates a doubled marker by stripping one extra '#'; a comment that starts with three or more '#' loses one marker per save / re-read generation",
 }
 for sid, text in needs.items():
     p = os.path.join(os.path.dirname(os.path.dirname(os.path.abspath(__file__))), "seeded", sid, "meta.json")
